@@ -67,6 +67,7 @@ type state struct {
 	alloc  string
 	defers []deferred
 	ghost  map[string]string
+	lvregs map[*ssa.Alloc]*lval // local pointer variables that hold the address of a field / element (a location, not a ref)
 }
 
 func (s *state) clone() *state {
@@ -78,6 +79,12 @@ func (s *state) clone() *state {
 		n.heap[k] = v
 	}
 	n.defers = append(n.defers, s.defers...)
+	if len(s.lvregs) > 0 {
+		n.lvregs = make(map[*ssa.Alloc]*lval, len(s.lvregs))
+		for k, v := range s.lvregs {
+			n.lvregs[k] = v
+		}
+	}
 	return n
 }
 
